@@ -11,6 +11,7 @@ import (
 	"fmt"
 	"io"
 	"math/big"
+	"strings"
 	"sync"
 	"testing"
 
@@ -58,7 +59,7 @@ func c17Keys() []c17Key {
 		n.Add(n, big.NewInt(12345))
 		return &rsa.PublicKey{N: n, E: 65537}
 	}
-	for _, bits := range []int{2040, 2041, 2046, 2047, 2048, 2049} {
+	for _, bits := range []int{2040, 2041, 2046, 2047, 2048, 2049, 8192, 16384, 16385, 20480, 32768} {
 		p := fab(bits)
 		ks = append(ks, c17Key{Name: fmt.Sprintf("rsa-modulus-%d-bits", bits), Pub: p, Family: "rsa", RSAOK: bits >= 2048})
 	}
@@ -101,6 +102,22 @@ func c17Keys() []c17Key {
 	ppk := &ecdsa.PrivateKey{PublicKey: ecdsa.PublicKey{Curve: elliptic.P256().Params(), X: pp.X, Y: pp.Y}, D: pp.D}
 	ks = append(ks, c17Key{Name: "ecdsa-P-256-as-CurveParams", Pub: &ppk.PublicKey, Priv: ppk, Family: "ec"})
 	ks = append(ks, c17Key{Name: "ecdsa-P-256-as-CurveParams-opaque", Pub: &ppk.PublicKey, Priv: opaqueSigner{ppk}, Family: "ec"})
+	// COSE_Key objects handed to the constructors (documented key types are the Go keys; should an
+	// implementation take these too, the object it returns still has to be one for the requested algorithm)
+	for _, ck := range []struct {
+		name string
+		pub  crypto.PublicKey
+		alg  cose.Algorithm
+		fam  string
+	}{{"P-256", &p256.PublicKey, 0, "ec"}, {"P-256-alg-ES256", &p256.PublicKey, cose.AlgorithmES256, "ec"}, {"Ed25519", ed.Public(), 0, "ed"}, {"Ed25519-alg-EdDSA", ed.Public(), cose.AlgorithmEdDSA, "ed"}} {
+		kk, err := cose.NewKeyFromPublic(ck.pub)
+		if err != nil {
+			panic(err)
+		}
+		kk.Algorithm = ck.alg
+		ks = append(ks, c17Key{Name: "cose-key-pointer-" + ck.name, Pub: kk, Family: "cose-key:" + ck.fam})
+		ks = append(ks, c17Key{Name: "cose-key-value-" + ck.name, Pub: *kk, Family: "cose-key:" + ck.fam})
+	}
 	// foreign key types
 	edPub := ed.Public().(ed25519.PublicKey)
 	xk, _ := ecdh.X25519().NewPrivateKey(make([]byte, 32))
@@ -181,6 +198,17 @@ func checkC17Cell(c c17Cell) error {
 		if err == nil && v != nil {
 			gotAlg = v.Algorithm()
 		}
+	}
+	if strings.HasPrefix(k.Family, "cose-key:") {
+		if err != nil {
+			stats.Class("refused/cose-key-object")
+			return nil
+		}
+		if isNil || gotAlg != alg || fam != strings.TrimPrefix(k.Family, "cose-key:") {
+			return finding("wrong-algorithm-reported", "New%s(%v, %s) succeeds and returns an object reporting %v (nil=%v) for a key of the %s family", c.Side, alg, c.Key, gotAlg, isNil, strings.TrimPrefix(k.Family, "cose-key:"))
+		}
+		stats.Class("created/from-cose-key-object")
+		return nil
 	}
 	want := fam != "" && fam == k.Family
 	why := "family"
